@@ -340,7 +340,8 @@ void vm_array_push(VmArray *a, NanoValue v) {
 }
 
 NanoValue vm_array_pop(VmArray *a) {
-    if (a->length == 0) return val_void();
+    /* docs/STDLIB.md: "I return the last element, or 0 if the array is empty" */
+    if (a->length == 0) return val_int(0);
     a->length--;
     NanoValue v = a->elements[a->length];
     /* Don't release - caller takes ownership */
